@@ -9,6 +9,7 @@ import (
 	"encoding/json"
 	"fmt"
 	"os"
+	"runtime/debug"
 	"sort"
 	"strings"
 	"time"
@@ -791,6 +792,66 @@ func execCtl(prop string, raw json.RawMessage, wantLog bool) (out Outcome) {
 			}
 		}
 		r.out.Stat("canary_creates_ok", 1)
+		// ... and the data plane of what the membership changes left behind: a write, a search
+		// and a size request on every surviving dataset through every node may fail (a
+		// partition can have lost all its replicas) but must return and must not take the
+		// serving process down
+		slots := make([]int, 0, len(r.ds))
+		for slot := range r.ds {
+			slots = append(slots, slot)
+		}
+		sort.Ints(slots)
+		probes := 0
+		for _, slot := range slots {
+			info := r.ds[slot]
+			if info == nil || !info.ackedCreate || info.ackedDelete || info.unknownDelete || slot >= 1000 || probes >= 4 {
+				continue
+			}
+			probes++
+			for _, n := range r.aliveNodes() {
+				var panicked string
+				dsid, dim := info.id.Bytes(), info.dim
+				nn := n
+				guard := func() {
+					if rec := recover(); rec != nil {
+						panicked = fmt.Sprintf("%v | %s", rec, topFrame(debug.Stack()))
+					}
+				}
+				ops := []*clientOp{
+					s.client(n, fmt.Sprintf("data-plane probe: insert into dataset#%d", slot), 8*time.Second, func(ctx context.Context, n *simNode) (res interface{}, err error) {
+						defer guard()
+						return n.svcData.Insert(ctx, &pb.InsertRequest{DatasetId: dsid, Id: idOf(900000 + slot*10 + nn.idx).Bytes(), Value: vecOf(900000+slot, 1, dim)})
+					}),
+				}
+				s.runUntil(func() bool { return ops[0].done }, 12*time.Second)
+				ops = append(ops, s.client(n, fmt.Sprintf("data-plane probe: search in dataset#%d", slot), 8*time.Second, func(ctx context.Context, n *simNode) (res interface{}, err error) {
+					defer guard()
+					fs := &fakeServerStream{ctx: ctx}
+					return nil, n.svcSrch.Search(&pb.SearchRequest{DatasetId: dsid, Query: vecOf(1, 1, dim), K: 3}, srvStreamItems{fs})
+				}))
+				s.runUntil(func() bool { return ops[1].done }, 12*time.Second)
+				ops = append(ops, s.client(n, fmt.Sprintf("data-plane probe: size of dataset#%d", slot), 8*time.Second, func(ctx context.Context, n *simNode) (res interface{}, err error) {
+					defer guard()
+					return n.svcDM.GetDatasetSize(ctx, &pb.GetDatasetRequest{DatasetId: dsid})
+				}))
+				s.runUntil(func() bool { return ops[2].done }, 12*time.Second)
+				if panicked != "" {
+					r.viol("data-request-panics-after-membership-changes/"+strings.Split(panicked, " | ")[1], "a data request on dataset#%d through n%d panics in its handler (which takes the serving process down): %s", slot, n.idx, panicked)
+					return
+				}
+				for i, o := range ops {
+					if !o.done {
+						r.viol("data-request-never-returns-after-membership-changes", "request %d of the data-plane probe on dataset#%d through n%d did not return within 12 simulated seconds", i, slot, n.idx)
+						return
+					}
+					if o.err != nil {
+						r.out.Stat("data_plane_probes_failed_loudly", 1)
+					}
+				}
+				r.out.Stat("data_plane_probes", 1)
+			}
+		}
+		r.checkNoDeath()
 	})
 	if st.addrChanged {
 		for i := range out.Violations {
